@@ -96,6 +96,12 @@ def check(w):
     for i, s in enumerate(scen):
         s["id"] = i + 1
     obs, summ = run(w, scen, "all")
+    # a run without an observation of the outside region (worker died / session never returned) cannot be judged
+    # by C05 (crashes and hangs are C08's and C18's business); more than a handful means the harness is broken
+    unjudged = [o for o in obs if o["result"] in ("crashed", "hung")]
+    if len(unjudged) > max(5, len(obs) // 500):
+        raise Broken("%d of %d hostile-list runs ended without an observation (crashed / hung): %s" % (len(unjudged), len(obs), unjudged[0]["err"][:400]))
+    obs = [o for o in obs if o["result"] not in ("crashed", "hung")]
     rej, gen, dist = validate(w, obs, "all")
     if rej:
         byid = {s["id"]: s for s in scen}
@@ -140,7 +146,7 @@ def check(w):
                 "x entry type {reg, dir, lnk, fifo, sock, chr} x {s sent first or not} x --delete on/off, on the real client receiver and a writable daemon module (run as root with -rlptgoD); "
                 "the same lists with file data pushed for the hostile entry without a request; plus the daemon's destination sub-directory argument over a traversal grammar, plus random longer lists; non-trivial = a path-joining receiver would reach the outside region (Confine!Escapes)",
         "by_class_and_result": {"%s/%s" % k: n for k, n in sorted(by.items())},
-        "action_coverage": cov, "negative_controls": len(bad), "worker_crashes": summ["crashed"],
+        "action_coverage": cov, "negative_controls": len(bad), "worker_crashes": summ["crashed"], "runs_without_observation_not_judged": len(unjudged),
     }
     v.assumptions = ["outside effects are observed by a before/after snapshot (content, mode, mtime, owner, entry sets) and inotify (open/access/attrib/modify/create/delete) on the outside directories; a bare lstat of an outside object is not observable",
                      "landlock is disabled in the harness (DontRestrict), so confinement is os.Root's"]
